@@ -99,3 +99,29 @@ Definition pager_mirror_never_panics_stmt : Prop :=
   forall g nl fs max_st fuel orders, loop_pre g nl fs ->
     (N.of_nat (S (S (fuel * length (all_syms g)))) < max_st)%N ->
     pager_mirror g nl fs max_st fuel orders <> Panic.
+
+(* ---- termination ------------------------------------------------------------------------------
+
+   For every oracle of hash orders and every StorageT bound the loop of
+   pager_stategraph terminates: some fuel suffices.  (Why: a new state is created
+   only for a kernel that is not included in any candidate — a kernel included in
+   a candidate is weakly compatible with it — candidates only grow, so every
+   (symbol, kernel) pair triggers at most one creation, and there are finitely
+   many kernels; between creations every re-queueing strictly enlarges a context;
+   otherwise the number of unprocessed states drops.)  With
+   pager_mirror_never_panics: unless a StorageT size check fires, the
+   construction returns a graph. *)
+Definition pager_mirror_terminates_stmt : Prop :=
+  forall g nl fs max_st orders, loop_pre g nl fs ->
+    exists fuel, pager_mirror g nl fs max_st fuel orders <> OutOfFuel.
+
+Definition pager_mirror_total_stmt : Prop :=
+  forall g nl fs max_st orders, loop_pre g nl fs ->
+    exists fuel,
+      (exists pg, pager_mirror g nl fs max_st fuel orders = Done pg) \/
+      (pager_mirror g nl fs max_st fuel orders = Panic /\
+       (max_st <= N.of_nat (S (S (fuel * length (all_syms g)))))%N).
+
+(* a kernel included in another (same cores, smaller contexts) is weakly compatible with it *)
+Definition sub_kernel_weakly_compatible_stmt : Prop :=
+  forall K G, sub_kernel G K -> weakly_compatible_spec K G.
